@@ -24,6 +24,7 @@ type c09Part struct {
 type c09Scenario struct {
 	EnableNoResume   bool       `json:"enabled_without_resume"`
 	MandatorySession bool       `json:"server_requires_session,omitempty"`     // legacy session establishment is mandatory on every connection
+	MiddleUnmanaged  bool       `json:"second_connection_without_sm,omitempty"` // the reconnection lands on a server without stream management: a fresh unmanaged session in between
 	FirstUnmanaged   bool       `json:"first_connection_without_sm,omitempty"` // the first server does not offer stream management: stanzas flow, nothing is enabled
 	Client           ClientOpts `json:"client"`
 	Parts            []c09Part  `json:"parts"`
@@ -64,6 +65,12 @@ func runC09(e *Engine, g G, o RunOpt) RunInfo {
 			nparts = 2
 		}
 	}
+	if !sc.EnableNoResume && !sc.FirstUnmanaged && g.Pct("middle-unmanaged", 12) {
+		sc.MiddleUnmanaged = true
+		if nparts < 3 {
+			nparts = 3
+		}
+	}
 	idn := 0
 	for p := 0; p < nparts; p++ {
 		n := 0
@@ -79,7 +86,7 @@ func runC09(e *Engine, g G, o RunOpt) RunInfo {
 		if p > 0 && g.Pct("resume-refused", 30) {
 			part.ResumeReply = "failed"
 		}
-		managed := !(sc.FirstUnmanaged && p == 0)
+		managed := !(sc.FirstUnmanaged && p == 0) && !(sc.MiddleUnmanaged && p == 1)
 		part.Inbound = GenInbound(g, n, InboundOpts{AllowR: managed, AllowA: managed, MaxA: 3, AllowIQReq: true, AllowNested: true, AllowSpace: true, AllowEntity: true, IDPrefix: fmt.Sprintf("p%d-", p)})
 		// sprinkle other non-stanza elements
 		for i := range part.Inbound {
@@ -116,7 +123,7 @@ func runC09(e *Engine, g G, o RunOpt) RunInfo {
 		if sc.MandatorySession {
 			s2.Session = SessMandatory
 		}
-		s2.SM = true
+		s2.SM = !(sc.MiddleUnmanaged && i == 1)
 		s2.SMId = fmt.Sprintf("sm-%d", i+1)
 		if sc.Parts[i].ResumeReply == "failed" {
 			s2.Resume = ResumeFailed
@@ -180,9 +187,10 @@ func runC09(e *Engine, g G, o RunOpt) RunInfo {
 			})
 			e.Sleep(10 * time.Second)
 			pc.readEnd = cli.TotalRead
-			// the client's count after this connection = stanzas completely read
+			// the client's count after this connection = stanzas completely read - on the
+			// stream-managed session: what arrives on an unmanaged session in between is not part of it
 			for _, el := range part.Inbound {
-				if el.Stanza && pc.base+el.End <= pc.readEnd {
+				if el.Stanza && pc.base+el.End <= pc.readEnd && (conn.Enabled || (sc.FirstUnmanaged && pi == 0)) {
 					count++
 				}
 			}
@@ -203,9 +211,12 @@ func runC09(e *Engine, g G, o RunOpt) RunInfo {
 			conn = srv.Conns[len(srv.Conns)-1]
 			e.Sleep(100 * time.Millisecond)
 			resumeH = append(resumeH, count)
-			if conn.Established == "bound" {
-				// the resumption was refused and a new stream-managed session enabled: counting restarts
+			if conn.Established == "bound" && conn.Enabled {
+				// the resumption was refused (or not possible) and a new stream-managed session enabled: counting restarts
 				count = 0
+			}
+			if conn.Established == "bound" && !conn.Enabled {
+				e.Probe("c09.unmanaged_session_in_between")
 			}
 		}
 	})
